@@ -17,128 +17,182 @@ from ..rules import loops_in, loop_reaches_on_all_paths
 CUR = 'mininec.Mininec.currents_as_mininec'
 
 
-def junction_blocks(ctx):
-    """[(K, for-loop, accumulator name)] for loops over <obj>.conn[K].pulse_iter()"""
+def current_report_paths(ctx):
+    """symbolic paths through currents_as_mininec that report one object (one iteration of the
+    loop over self.geo): [(path, object text, {K: (grounded?, connected?)}, rows)]"""
+    import re
+    from ..symx import SymExec, line_exprs, leading_literal
+    m = ctx.model
     f = ctx.func(CUR)
+    wq = {g.qual for g in m.all_funcs() if 'as_mininec' in g.name and not g.name.startswith('_')}
     out = []
-    for l in loops_in(f.node):
-        if not isinstance(l, ast.For):
+    for p in SymExec(ctx, f, bind_loops=True, no_expand=wq).run():
+        if p.end == 'raise':
             continue
-        it = l.iter
-        if isinstance(it, ast.Call) and isinstance(it.func, ast.Attribute) and it.func.attr == 'pulse_iter' \
-           and isinstance(it.func.value, ast.Subscript) and isinstance(it.func.value.value, ast.Attribute) \
-           and it.func.value.value.attr == 'conn' and isinstance(it.func.value.slice, ast.Constant):
-            out.append((it.func.value.slice.value, l))
+        objs = {mo.group(1) for t, b in p.conds if isinstance(b, bool)
+                for mo in [re.match(r'^(self\.geo\[_k\d+\])\.(is_ground|conn)\[[01]\]$', t)] if mo}
+        if not any(k == 'loop' and t == 'self.geo' for k, t in p.conds):
+            continue
+        if len(objs) != 1:
+            raise AnalysisError('currents_as_mininec: the end conditions of the reported object are not tested '
+                                'as <obj>.is_ground[K] / <obj>.conn[K] on the path %s' % (p.conds,))
+        obj = sorted(objs)[0]
+        state = {}
+        for K in (0, 1):
+            gr = [b for t, b in p.conds if t == '%s.is_ground[%d]' % (obj, K) and isinstance(b, bool)]
+            cn = [b for t, b in p.conds if t == '%s.conn[%d]' % (obj, K) and isinstance(b, bool)]
+            state[K] = (gr[-1] if gr else None, cn[-1] if cn else None)
+        rows = []
+        for e, st in line_exprs(p):
+            lead = leading_literal(e)
+            txt = norm(e)
+            kind = 'other'
+            if lead is not None and lead.startswith('J '):
+                kind = 'J'
+            elif lead is not None and lead.startswith('E '):
+                kind = 'E'
+            elif 'pulse_idx_iter(' in txt and 'self.current[' in txt:
+                kind = 'interior'
+            rows.append((kind, e, st))
+        out.append((p, obj, state, rows))
     return f, out
 
 
+def row_base(e):
+    """the complex value whose .real is printed in the row (AST) or None"""
+    for n in ast.walk(e):
+        if isinstance(n, ast.Attribute) and n.attr == 'real':
+            return n.value
+    return None
+
+
 def check_junction_accumulate(ctx, ck, rule='R-SIB.junction-accumulate'):
-    f, blocks = junction_blocks(ctx)
-    fl = ctx.flow(f)
-    ks = sorted(k for k, l in blocks)
-    if ks != [0, 1]:
-        raise AnalysisError('currents_as_mininec: expected junction loops for conn[0] and conn[1], '
-                            'found %s' % ks)
-    feats = {}
-    for K, l in blocks:
-        tg = l.target
-        if not (isinstance(tg, ast.Tuple) and len(tg.elts) == 2 and
-                all(isinstance(e, ast.Name) for e in tg.elts)):
-            raise AnalysisError('junction loop target is not (pulse, sign)')
-        pv, sv = tg.elts[0].id, tg.elts[1].id
-        upd = [s for s in walk_no_nested(l) if isinstance(s, (ast.Assign, ast.AugAssign))]
-        upd = [s for s in upd if any(isinstance(x, ast.Attribute) and dotted(x) == 'self.current'
-                                     for x in ast.walk(s.value))]
-        ok, why, op = False, 'no update of the junction current in the loop body', None
-        if len(upd) == 1:
-            s = upd[0]
-            if isinstance(s, ast.AugAssign) and isinstance(s.op, ast.Add) and isinstance(s.target, ast.Name):
-                acc, val, op = s.target.id, s.value, '+='
-            elif isinstance(s, ast.Assign) and isinstance(s.targets[0], ast.Name):
-                acc = s.targets[0].id
-                terms = sum_terms(s.value)
-                prev = [t for sg, t in terms if sg == 1 and isinstance(t, ast.Name) and t.id == acc]
-                rest = [t for sg, t in terms if not (isinstance(t, ast.Name) and t.id == acc)]
-                if prev and len(rest) == 1:
-                    val, op = rest[0], '+='
-                else:
-                    val, op = s.value, '='
+    """the junction row of end K prints  sum over conn[K].pulse_iter() of sign * self.current[pulse]"""
+    import re
+    from ..symx import canon_k
+    f, paths = current_report_paths(ctx)
+    found = {}
+    for p, obj, state, rows in paths:
+        for kind, e, st in rows:
+            if kind != 'J':
+                continue
+            base = row_base(e)
+            if base is None:
+                continue
+            txt = norm(base)
+            ks = set(re.findall(r'\.conn\[([01])\]\.pulse_iter\(\)', txt))
+            if len(ks) != 1:
+                continue        # the path on which the connection list is empty: no term at all
+            K = int(sorted(ks)[0])
+            it = '%s.conn[%d].pulse_iter()' % (obj, K)
+            # accepted closed form: [0 +] sum(_each(IT[_k][1] * self.current[IT[_k][0]], IT))
+            b = base
+            if isinstance(b, ast.BinOp) and isinstance(b.op, ast.Add) and isinstance(b.left, ast.Constant) and b.left.value == 0:
+                b = b.right
+            ok = False
+            why = None
+            if isinstance(b, ast.Call) and isinstance(b.func, ast.Name) and b.func.id == 'sum' and len(b.args) == 1 \
+               and isinstance(b.args[0], ast.Call) and norm(b.args[0].func) == '_each' and len(b.args[0].args) == 2 \
+               and norm(b.args[0].args[1]) == it:
+                term = b.args[0].args[0]
+                pr = product_of(term)
+                nn, dd = pr.texts()
+                want = [re.sub(r'_k\d+', '_k', x) for x in ('%s[_k][1]' % it, 'self.current[%s[_k][0]]' % it)]
+                got = sorted(re.sub(r'_k\d+', '_k', x) for x in nn)
+                ok = got == sorted(want) and not dd and pr.coef == 1
+                why = ('end %d: sum of sign * self.current[pulse] over conn[%d]' % (K + 1, K)) if ok else \
+                    'accumulated term is %s, expected sign * self.current[pulse]' % norm(term)[:120]
+            elif 'sum(' not in txt:
+                why = ('junction current of end %d is overwritten for every connected wire instead of '
+                       'accumulated: only the last pulse is reported (%s)' % (K + 1, canon_k(txt)[:100]))
             else:
-                acc, val, op = None, s.value, '?'
-            pr = product_of(val)
-            nn, dd = pr.texts()
-            form_ok = nn == sorted([sv, 'self.current[%s]' % pv]) and not dd and pr.coef == 1
-            ok = (op == '+=') and form_ok
-            if op != '+=':
-                why = ('junction current of end %d is overwritten (`%s = ...`) for every connected '
-                       'wire instead of accumulated: only the last pulse is reported' % (K + 1, acc))
-            elif not form_ok:
-                why = 'accumulated term is %s, expected sign * self.current[pulse]' % norm(val)
-            else:
-                why = 'end %d: %s += %s * self.current[%s] over conn[%d]' % (K + 1, acc, sv, pv, K)
-            # initial value 0 before the loop
-            if ok and acc:
-                body_ids = fl.cfg.loops[fl.cfg.node_of(l)][0]
-                ds = [d for d in fl.def_exprs(acc, fl.cfg.node_of(l)) if d[0] == 'assign'
-                      and d[2] not in body_ids]
-                zero = [d for d in ds if norm(d[1]) in ('0 + 0j', '0j', '0', '0.0', '0 + 0.0j')]
-                if not ds or len(zero) != len(ds):
-                    ok, why = False, 'accumulator %s does not start at zero' % acc
-        elif len(upd) > 1:
-            why = '%d statements update the junction current' % len(upd)
-        ck.ob(rule, '%s|conn[%d]' % (CUR, K), ok, f.loc(upd[0] if upd else l), why)
-        # features for the sibling comparison
-        guards = []
-        child = l
-        p = parent(l)
-        while p is not None and p is not f.node:
-            if isinstance(p, ast.If):
-                branch = 'then' if any(child is x for x in p.body) else 'else'
-                guards.append((norm(p.test).replace('[%d]' % K, '[K]'), branch))
-            child = p
-            p = parent(p)
-        # statements after the loop in the same block: row formatting
-        blk = parent(l)
-        body = blk.orelse if (isinstance(blk, ast.If) and l in blk.orelse) else getattr(blk, 'body', [])
-        idx = body.index(l) if l in body else -1
-        after = [norm(s).replace('[%d]' % K, '[K]') for s in body[idx + 1:]] if idx >= 0 else []
-        feats[K] = dict(guards=guards, after=after, op=op)
-        # the zero row of the unconnected end
-        zero_rows = []
-        for g in ast.walk(f.node):
-            if isinstance(g, ast.If) and norm(g.test) == 'not geobj.conn[%d]' % K or \
-               (isinstance(g, ast.If) and isinstance(g.test, ast.UnaryOp) and
-                    norm(g.test.operand).endswith('.conn[%d]' % K)):
-                zero_rows.append([norm(fl.inline(s.value, fl.node_id_of(s))) if isinstance(s, ast.Expr)
-                                  else norm(s) for s in g.body])
-        feats[K]['zero'] = zero_rows
-    return f, feats
+                why = 'junction current of end %d is %s' % (K + 1, canon_k(txt)[:140])
+            prev = found.get(K)
+            if prev is None or (prev[0] and not ok):
+                found[K] = (ok, f.loc(st), why, e, base)
+    if sorted(found) != [0, 1]:
+        raise AnalysisError('currents_as_mininec: junction rows for conn[0] and conn[1] not found (%s)' % sorted(found))
+    for K in (0, 1):
+        ok, where, why, e, base = found[K]
+        ck.ob(rule, '%s|conn[%d]' % (CUR, K), ok, where, why)
+    return f, paths, found
 
 
 def run(ctx, ck):
+    import re
+    from ..symx import fold_text, canon_k
     m = ctx.model
     ck.rule('R-SIB.junction-accumulate', 'junction current of each end = sum of sign*current over conn[K]')
     ck.rule('R-SIB.ends-alike', 'end 1 and end 2 blocks agree in guards, zero row and row formatting')
     ck.rule('R-EXH.pulse-iter', 'Connected_Geobj.pulse_iter yields (end_segs[idx], sign) for every entry')
     ck.rule('R-EXH.rows', 'one interior row per own pulse, 1-based number')
 
-    f, feats = check_junction_accumulate(ctx, ck)
-    a, b = feats[0], feats[1]
-    for k in ('guards', 'after', 'zero'):
-        ck.ob('R-SIB.ends-alike', '%s|%s' % (CUR, k), a[k] == b[k] and bool(a[k]), f.loc(),
-              'end blocks agree on %s' % k if a[k] == b[k] else
-              'end 1: %s / end 2: %s' % (str(a[k])[:80], str(b[k])[:80]))
+    f, paths, found = check_junction_accumulate(ctx, ck)
+    ck.floor('paths reporting one object', len(paths), 9)
+    # the end rows on every path are the ones the end conditions call for:
+    #   grounded end: nothing;  free end (no connection): the E row of zeros;  junction: the J row of conn[K];
+    # end 1 before the interior rows, end 2 after them
+    bad = None
+    for p, obj, state, rows in paths:
+        want = []
+        for K in (0, 1):
+            gr, cn = state[K]
+            if gr is None:
+                bad = bad or (p, 'is_ground[%d] is not tested' % K)
+                continue
+            if gr:
+                continue
+            if cn is None:
+                bad = bad or (p, 'conn[%d] is not tested for an ungrounded end' % K)
+                continue
+            want.append((K, 'J' if cn else 'E'))
+        got = []
+        seen_interior = False
+        for kind, e, st in rows:
+            if kind == 'interior':
+                seen_interior = True
+            elif kind in ('J', 'E'):
+                got.append((kind, seen_interior, norm(e)))
+        interior = any(k == 'interior' for k, e, st in rows)
+        ok = len(got) == len(want)
+        if ok:
+            for (K, kind), (gk, after, txt) in zip(want, got):
+                ok = ok and gk == kind
+                if kind == 'J':
+                    ks = set(re.findall(r'\.conn\[([01])\]', txt))
+                    ok = ok and (ks <= {str(K)})
+                if interior:
+                    ok = ok and after == (K == 1)
+        if not ok and bad is None:
+            bad = (p, 'end rows %s, end conditions call for %s' % ([(k, 'after' if a else 'before') for k, a, t in got], want))
+    ck.ob('R-SIB.ends-alike', CUR + '|end-rows', bad is None, f.loc(),
+          'on all %d paths: no row for a grounded end, E row for a free end, J row of conn[K] for a junction; '
+          'end 1 before and end 2 after the interior rows' % len(paths) if bad is None else
+          '%s on the path %s' % (bad[1], [c for c in bad[0].conds if c[0] not in ('loop', 'loop-skipped')][:6]))
     # zero row literal
+    zr = {}
+    for p, obj, state, rows in paths:
+        for kind, e, st in rows:
+            if kind == 'E':
+                try:
+                    zr.setdefault(fold_text(e), f.loc(st))
+                except ValueError:
+                    zr.setdefault('not a literal: ' + norm(e)[:80], f.loc(st))
+    ok = len(zr) == 1 and all(isinstance(t, str) and t.split() == ['E', '0', '0', '0', '0'] for t in zr)
+    ck.ob('R-SIB.ends-alike', CUR + '|zero-row', ok, sorted(zr.values())[0] if zr else f.loc(),
+          'a free end prints E and four literal zeros' if ok else 'zero rows are %s' % sorted(zr))
+    # both junction rows are formatted alike (same format, same four parts of the same value)
+    shapes = {}
     for K in (0, 1):
-        z = feats[K]['zero']
-        ok = len(z) == 1 and len(z[0]) == 1 and "'E '" in z[0][0] and "['0'] * 4" in z[0][0]
-        ck.ob('R-SIB.ends-alike', '%s|zero-row|%d' % (CUR, K), ok, f.loc(),
-              'unconnected end prints E and four literal zeros' if ok else 'zero row is %s' % z)
-    # ground guard: J/E lines only for ends that are not grounded
-    for K in (0, 1):
-        g = [x for x in feats[K]['guards'] if 'is_ground[K]' in x[0]]
-        ck.ob('R-SIB.ends-alike', '%s|ground-guard|%d' % (CUR, K), len(g) == 1 and g[0][0].startswith('not '),
-              f.loc(), 'junction/end line only for an end that is not grounded')
+        ok_, where, why, e, base = found[K]
+        btxt = norm(base)
+        from ..symx import copy_replace
+        shapes[K] = canon_k(norm(copy_replace(e, lambda n_: ast.Name(id='B', ctx=ast.Load())
+                                              if isinstance(n_, ast.expr) and norm(n_) == btxt else None)))
+    ck.ob('R-SIB.ends-alike', CUR + '|row-format', shapes[0] == shapes[1] and 'B.real' in shapes[0] and
+          'B.imag' in shapes[0] and 'np.abs(B)' in shapes[0] and 'np.angle(B)' in shapes[0], f.loc(),
+          'junction rows of both ends print real, imaginary, magnitude, phase of the junction current alike'
+          if shapes[0] == shapes[1] else 'end 1: %s / end 2: %s' % (shapes[0][:90], shapes[1][:90]))
 
     # pulse_iter
     g = m.func('mininec.Connected_Geobj.pulse_iter')
@@ -174,22 +228,30 @@ def run(ctx, ck):
         ok = fl.cfg.must_pass(fl.cfg.exit.id, {fl.node_id_of(apps[0])})
     ck.ob('R-EXH.pulse-iter', add.qual, ok, add.loc(), 'add() appends one 4-tuple to self.list on every path')
 
-    # interior rows
-    fl = ctx.flow(f)
-    rows = [l for l in loops_in(f.node) if isinstance(l, ast.For) and 'pulse_idx_iter' in norm(l.iter)]
-    ck.floor('interior row loops', len(rows), 1)
-    for l in rows:
-        mn, mx = loop_reaches_on_all_paths(fl, l, lambda n: n.kind == 'stmt' and isinstance(n.stmt, ast.Expr)
-                                           and isinstance(n.stmt.value, ast.Call) and
-                                           isinstance(n.stmt.value.func, ast.Attribute) and
-                                           n.stmt.value.func.attr == 'append')
-        kw = [k for k in l.iter.keywords if k.arg == 'yield_ends']
-        own = len(kw) == 1 and isinstance(kw[0].value, ast.Constant) and kw[0].value.value is False
-        lv = l.target.id if isinstance(l.target, ast.Name) else '?'
-        txt = ' '.join(norm(s) for s in l.body)
-        uses = ('self.current[%s]' % lv) in txt and ('%s + 1' % lv) in txt
-        ck.ob('R-EXH.rows', CUR + '|interior', (mn, mx) == (1, 1) and own and uses, f.loc(l),
-              'one row per own pulse (yield_ends=False), number k+1, value self.current[k]')
+    # interior rows: one per own pulse, number k + 1, value self.current[k]
+    n_int = 0
+    bad = None
+    for p, obj, state, rows in paths:
+        it = '%s.pulse_idx_iter(yield_ends=False)' % obj
+        ent = any(k == 'loop' and t == it for k, t in p.conds)
+        skp = any(k == 'loop-skipped' and t == it for k, t in p.conds)
+        ints = [e for kind, e, st in rows if kind == 'interior']
+        if not ent and not skp:
+            # comprehension form or a different iterable: judged by what the rows mention
+            ent = bool(ints)
+        want = 1 if ent else 0
+        ok = len(ints) == want
+        it = re.sub(r'_k\d+', '_k', it)
+        for e in ints:
+            txt = re.sub(r'_k\d+', '_k', norm(e))
+            ok = ok and ('self.current[%s[_k]]' % it) in txt and ('%s[_k] + 1' % it) in txt
+        n_int += len(ints)
+        if not ok and bad is None:
+            bad = (len(ints), want, [norm(e)[:100] for e in ints][:1])
+    ck.floor('interior rows seen', n_int, 1)
+    ck.ob('R-EXH.rows', CUR + '|interior', bad is None, f.loc(),
+          'one row per own pulse (yield_ends=False), number k+1, value self.current[k]' if bad is None else
+          'interior rows per own pulse: %s instead of %s %s' % bad)
     from ._endidx import check_end_index
     ck.rule('R-COUNT.end-index', 'predicted index of the end pulses == number of pulses created before them (all end states)')
     ncases = check_end_index(ctx, ck)
